@@ -8,6 +8,7 @@ import typing
 
 from .. import core, enc, iso, lean
 from ..runner import Result
+from .naming_corr import naming_correspondence, naming_replay
 
 ID = "C16"
 LEVEL = "proof"
@@ -21,7 +22,11 @@ LEVEL_TEXT = ("Kernel-checked refinement theorem C16.ctx_refines: for EVERY fini
               "key family (familyLaws) and checked on the real inspection.unwrap / refs.forwardref on every run. The model is tied "
               "to /repo by a per-run differential correspondence (every enumerated and random operation sequence through the real "
               "TypeContext and through the compiled Lean model) and the property is also evaluated directly on the real class "
-              "against an independent Python oracle.")
+              "against an independent Python oracle. The forward-reference step itself — how refs.forwardref NAMES a class "
+              "(qualified name, module) and what refs.evaluate finds under that name — has its own model and theorems "
+              "(Model/Naming.lean, Props/Naming.lean: forwardref_roundtrip for every class of every well-formed namespace whatever "
+              "its module and enclosing classes are called, forwardref_injective, text_roundtrip with its necessary hypothesis, "
+              "local_class_unresolvable, found_iff_bound_at_declared), tied to /repo by harness/props/naming_corr.py on every run.")
 LEVEL_NOTE = ("Trusted: Lean kernel; axioms propext, Classical.choice, Quot.sound (at most); the hand-written model Model/Ctx.lean "
               "(tied by correspondence, not verified against the Python source); the harness encoding of keys. The write-once and "
               "`in`-for-stored-keys side conditions are part of the property; each is shown necessary by a kernel-checked "
@@ -29,7 +34,7 @@ LEVEL_NOTE = ("Trusted: Lean kernel; axioms propext, Classical.choice, Quot.soun
 TECHNIQUE = ("Lean 4 refinement proof (simulation invariant, induction on the operation list) over an executable model generic in the "
              "key type; bounded-exhaustive + random differential correspondence with the real TypeContext; independent Python oracle")
 DESIGN_REF = "DESIGN.md §5 C16"
-MODULES = ["TypelibModel.Props.C16"]
+MODULES = ["TypelibModel.Props.C16", "TypelibModel.Props.Naming"]
 TABLES = False
 RULE = ("operation sequences over the closed key family (int, str, a synthesised generic dataclass Foo(Generic[T]), used unsubscripted) x {itself, NewType, TypeAliasType, "
         "string-valued TypeAliasType, Final[.], refs.forwardref(.)}: (a) ALL admissible sequences up to length L over the 6 family "
@@ -44,7 +49,12 @@ RULE = ("operation sequences over the closed key family (int, str, a synthesised
         "sequences are deduplicated by hash. A sequence is non-trivial when its last operation is a lookup ([] or get) that "
         "the reference model answers through a fallback (unwrapped form or forward reference) rather than by the key itself; for "
         "random sequences: when any of its lookups is. Each sequence runs on a fresh real TypeContext (replayed from scratch, no "
-        "state copying).")
+        "state copying). (d) naming: ~1300 synthesised namespaces (class trees nested up to two levels with classes named like "
+        "their module / its dotted parts / ending with its name, shadowing top-level classes, same-named classes in two modules, "
+        "function-local classes, NewTypes and TypeAliasTypes under their own and other names, namespaces Python does not "
+        "guarantee): for every object refs.forwardref / inspection.qualname / name / refs.evaluate, and refs.forwardref(text, "
+        "module=m) for every binding path bare and module-prefixed, against the Lean model; and for every class bound at its "
+        "qualified name ctx[cls] / ctx.get(cls) with the value stored under typing.ForwardRef(__qualname__, module=__module__).")
 ASSUMPTIONS = [
     "values are opaque to TypeContext (it never inspects them): distinct integers per position are the general case",
     "the dict contents are observed only through [], get and `in` on stored keys; the alias entries memoised by __missing__ are "
@@ -53,7 +63,8 @@ ASSUMPTIONS = [
 ]
 TRUSTED = ["harness/props/c16.py (key family construction, JSON key encoding, enumeration walker mirrored by Drv/Ctx.lean enumWalk)",
            "lean/TypelibModel/Drv/Ctx.lean (driver glue)",
-           "hand-written model Model/Ctx.lean tied to ctx.py by this correspondence"]
+           "hand-written model Model/Ctx.lean tied to ctx.py by this correspondence",
+           "harness/props/naming_corr.py (namespace synthesis and extraction), lean/TypelibModel/Drv/Naming.lean, Model/Naming.lean"]
 
 MODNAME = "c16_keys"
 KEYS_SRC = '''
@@ -825,6 +836,7 @@ def explore(ctx):
                                             "all_18_family_keys": M}
     res.extra["random_sequences"] = len(seqs)
     res.extra["exhaustive"] = False
+    naming_correspondence(res)   # how a class is named by reference and found again: real code <-> Model/Naming.lean
     return res
 
 
@@ -838,6 +850,8 @@ def replay(failure):
         bad = iso.map_isolated(_deep_child, [None], timeout=60.0)[0]
         print(json.dumps({"wrapper chains on which TypeContext does not find the value stored under the fully unwrapped type": bad}, indent=1))
         return bool(bad)
+    if "naming_layout" in failure["input"]:
+        return naming_replay(failure)
     if "naming" in failure["input"]:
         F = family()
         bad = [(list(jk), shown) for jk, shown, ok in F.naming if not ok]
